@@ -183,25 +183,31 @@ mutation = st.one_of(
     st.tuples(st.just("pad"), st.integers(0, 999), st.sampled_from([1, 16, 500, 1400, 4000, 8100, 8192, 20000, 60000])),
 ).map(list)
 
-common = {"reqnum": st.sampled_from([0, 1, 0x7fffffff, 0x80000000, 0xffffffff, 12345]), "url": st.integers(0, len(URLS) - 1), "src": st.sampled_from([0, 0, 1, 1, 2]),
-          "mut": st.lists(mutation, min_size=0, max_size=3), "pad": st.sampled_from([0, 1, 0xff, 0xffffffff])}
-icp_d = st.fixed_dictionaries(dict(common, proto=st.just("icp"), op=st.sampled_from(sorted(ICP_OPS) + ["QUERY", "QUERY", "HIT", "MISS", "HIT_OBJ"]), version=st.sampled_from([2, 2, 2, 3, 3, 0, 1, 4, 255]),
-                                   flags=st.sampled_from([0, 0x80000000, 0x40000000, 0xc0000000, 0xffffffff]), nul=st.sampled_from([True, True, True, False]),
+# mostly well-formed messages (so that they pass the gates of the handlers) with occasional odd field values; the mutations do the rest
+def W(common_values, rare_values, weight=6):
+    return st.sampled_from(list(common_values) * weight + list(rare_values))
+
+
+common = {"reqnum": st.sampled_from([0, 1, 0x7fffffff, 0x80000000, 0xffffffff, 12345]), "url": W([0, 1], range(len(URLS)), 8), "src": st.sampled_from([0, 0, 1, 1, 2]),
+          "mut": st.lists(mutation, min_size=0, max_size=3), "pad": st.sampled_from([0, 0, 0, 1, 0xff, 0xffffffff])}
+icp_d = st.fixed_dictionaries(dict(common, proto=st.just("icp"), op=W(["QUERY", "QUERY", "QUERY", "HIT", "MISS", "HIT_OBJ"], sorted(ICP_OPS), 4), version=W([2, 2, 3], [0, 1, 4, 255]),
+                                   flags=W([0], [0x80000000, 0x40000000, 0xc0000000, 0xffffffff], 3), nul=W([True], [False]),
                                    objlen=st.sampled_from([0, 1, 100, 4000, 16000])))
-htcp_d = st.fixed_dictionaries(dict(common, proto=st.just("htcp"), op=st.sampled_from([0, 1, 1, 1, 2, 3, 4, 4, 5, 15]), rr=st.sampled_from([0, 0, 1]), response=st.sampled_from([0, 0, 1, 2, 5, 15]),
-                                    f1=st.sampled_from([0, 1]), major=st.sampled_from([0, 0, 0, 1, 255]), minor=st.sampled_from([0, 1, 1, 2, 255]), auth=st.booleans(),
-                                    method=st.sampled_from(["GET", "HEAD", "PURGE", "", "X" * 300, "G T"]), http_version=st.sampled_from(["1.1", "1.0", "", "HTTP/1.1", "9" * 50]),
+htcp_d = st.fixed_dictionaries(dict(common, proto=st.just("htcp"), op=W([1, 1, 1, 4], [0, 2, 3, 5, 15]), rr=W([0, 0, 1], []), response=W([0], [1, 2, 5, 15]),
+                                    f1=W([1], [0]), major=W([0], [1, 255]), minor=W([1, 1, 0], [2, 255]), auth=st.booleans(),
+                                    method=W(["GET"], ["HEAD", "PURGE", "", "X" * 300, "G T"]), http_version=W(["1.1"], ["1.0", "", "HTTP/1.1", "9" * 50]),
                                     req_hdrs=st.sampled_from(["", "Accept: */*\r\n", "Host: example.test\r\nCache-Control: no-cache\r\n", "X: " + "y" * 3000 + "\r\n", "broken", ":\r\n\r\n"]),
                                     resp_hdrs=st.sampled_from(["", "Date: Tue, 22 Sep 2026 00:00:00 GMT\r\nAge: 5\r\n", "Expires: 0\r\nLast-Modified: x\r\n", "Z" * 2000])))
-snmp_d = st.fixed_dictionaries(dict(common, proto=st.just("snmp"), version=st.sampled_from([0, 0, 1, 1, 2, 3, -1, 0x7fffffff]), community=st.sampled_from(["public", "public", "public", "private", "", "p" * 127, "p" * 128, "p" * 129, "p" * 300, "pub\x00lic"]),
-                                    pdu=st.sampled_from(sorted(PDU_TAGS) + ["get", "get", "getnext", "getnext", "getbulk"]), errstat=st.sampled_from([0, 0, 1, 5, 50, -1, 0x7fffffff]),
-                                    errindex=st.sampled_from([0, 0, 1, 10, 1000, -1, 0x7fffffff]), oids=st.lists(st.integers(0, len(OIDS) - 1), min_size=0, max_size=8),
-                                    value=st.sampled_from(["null", "null", "int", "str", "counter", "ip", "emptyoid"])))
+snmp_d = st.fixed_dictionaries(dict(common, proto=st.just("snmp"), version=W([0, 1], [2, 3, -1, 0x7fffffff]),
+                                    community=W(["public"], ["private", "", "p" * 127, "p" * 128, "p" * 129, "p" * 300, "pub\x00lic"]),
+                                    pdu=W(["get", "getnext", "getnext", "getbulk"], sorted(PDU_TAGS), 3), errstat=W([0], [1, 5, 50, -1, 0x7fffffff]),
+                                    errindex=W([0], [1, 10, 1000, -1, 0x7fffffff]), oids=st.lists(st.integers(0, len(OIDS) - 1), min_size=0, max_size=8),
+                                    value=W(["null"], ["int", "str", "counter", "ip", "emptyoid"], 3)))
 
 
 def strategy(tp):
     n = int(tp.get("batch", 40))
-    return st.fixed_dictionaries({"dgrams": st.lists(st.one_of(icp_d, htcp_d, snmp_d), min_size=1, max_size=n)})
+    return st.fixed_dictionaries({"dgrams": st.lists(st.one_of(icp_d, htcp_d, snmp_d), min_size=max(1, n // 4), max_size=n)})
 
 
 def mutate(data, lens, muts):
@@ -257,7 +263,7 @@ def _udp(host):
 
 
 def setup(ctx):
-    socks = [_udp("127.0.0.1"), _udp("127.0.0.2"), _udp("127.0.0.3")]
+    socks = [_udp("127.0.0.4"), _udp("127.0.0.2"), _udp("127.0.0.3")]
     ports = {"icp": free_port(udp=True), "htcp": free_port(udp=True), "snmp": free_port(udp=True)}
     dead = free_port()
     conf = "\n".join([
@@ -267,7 +273,7 @@ def setup(ctx):
         "acl snmppublic snmp_community public", "snmp_access allow snmppublic all",
         "log_icp_queries on", "icp_hit_stale on",
         # the two sender sockets are configured peers, so ICP/HTCP *replies* from them reach the neighbour code too
-        "cache_peer 127.0.0.1 sibling %d %d name=picp no-digest no-netdb-exchange" % (dead, socks[0].getsockname()[1]),
+        "cache_peer 127.0.0.4 sibling %d %d name=picp no-digest no-netdb-exchange" % (dead, socks[0].getsockname()[1]),
         "cache_peer 127.0.0.2 sibling %d %d name=phtcp htcp no-digest no-netdb-exchange" % (dead, socks[1].getsockname()[1]),
         "cache_peer_access picp deny all", "cache_peer_access phtcp deny all",
         "dead_peer_timeout 1 second",
